@@ -42,12 +42,21 @@ class Term:
         s.ghost["vt"] = g
         return s
 
+    @staticmethod
+    def holds_frame(data):
+        return isinstance(data, TS) and any(isinstance(p, (Block, PBlock)) for p in data.items)
+
     def write(self, e, s, recv, a, k):
         data = a[0]
         for exc in self.faults:
-            e.raise_(ExcVal(exc), self.interrupted(e, s), fault=True)          # a prefix was delivered
+            s1 = self.interrupted(e, s)                                        # a prefix was delivered
+            if self.holds_frame(data):
+                s1.ghost["frame_output_cut_by"] = exc                          # ... of a render output: whatever it opened stays open
+            e.raise_(ExcVal(exc), s1, fault=True)
         s = e.fork(s)
         n = s.ghost["writes_n"] = s.ghost["writes_n"] + 1
+        if self.holds_frame(data):
+            s.ghost["unflushed_frame"] = True                                  # a buffering stream may hold (part of) it until flush()
         vt = VT(e, s, tag=f"write{n}")
         vt.feed(data)
         vt.commit()
@@ -61,8 +70,29 @@ class Term:
 
     def flush(self, e, s, recv, a, k):
         for exc in self.faults:
-            e.raise_(ExcVal(exc), self.interrupted(e, s, cursor=False), fault=True)
+            s1 = self.interrupted(e, s, cursor=False)
+            if s.ghost.get("unflushed_frame"):
+                s1.ghost["frame_output_cut_by"] = exc                          # the buffered render output went out only in part
+            e.raise_(ExcVal(exc), s1, fault=True)
+        s = e.fork(s)
+        s.ghost["unflushed_frame"] = False
         return [(None, s)]
+
+    @staticmethod
+    def handler(e, s, recv, a, k):
+        """_handle_interrupted_draw_ (a hook: the base class does nothing; a subclass terminates what its output left open)"""
+        s = e.fork(s)
+        s.ghost["interrupted_draw_handled"] = True
+        s.ghost["handled_interrupt_at_write"] = s.ghost["writes_n"]
+        return [(None, s)]
+
+    @staticmethod
+    def oblige_handled(eng, s, kind):
+        """C07, new API: a Ctrl-C that cuts a render output short (in write(), or in the flush() that delivers it) is followed by the
+        subclass hook - the only place where a command the output left open can be terminated"""
+        if s.ghost.get("frame_output_cut_by") == "KeyboardInterrupt":
+            eng.oblige(f"C07:interrupt-handler-runs-when-Ctrl-C-cuts-a-render-output-short(write-or-flush)@{kind}", s,
+                       s.ghost.get("interrupted_draw_handled") is True, prop="C07", kind="exit")
 
 
 def ctlseq_world(ctx, eng):
@@ -88,7 +118,9 @@ def u_animate(ctx):
     PW, PH = l + w + r, t + h + b
     T = Term(eng, st)
     st.pc += [w >= 1, h >= 1, l >= 0, t >= 0, r >= 0, b >= 0, PW <= T.TW, PH <= T.TH]     # validated by _init_render_ (unit below)
-    self_ = st.new("MyRenderable", {})
+    # the renderable's own render size is NOT the size this draw was initialised with (another thread, or a resize handler, may have
+    # changed it since): only the snapshot in the render data is what the frames are rendered and padded with
+    self_ = st.new("MyRenderable", {"render_size": size_rec(z3.Int("own_w_now"), z3.Int("own_h_now"))})
     eng.classes["MyRenderable"] = ("Renderable",)
     rdata = st.new("RenderableData", {"size": size_rec(w, h)})
     render_data = st.new("RenderData", {"finalized": False, "fin_calls": 0})
@@ -142,7 +174,7 @@ def u_animate(ctx):
         return [(None, s)]
     eng.genv["sleep"] = Fn(sleep)
     eng.methods[("Renderable", "_clear_frame_")] = lambda e, s, recv, a, k: [(None, s)]
-    eng.methods[("Renderable", "_handle_interrupted_draw_")] = lambda e, s, recv, a, k: [(None, s)]
+    eng.methods[("Renderable", "_handle_interrupted_draw_")] = Term.handler
 
     # every frame after the first is drawn over the same cells: the block must start at the anchor of the first frame
     def on_block(vt, blk):
@@ -180,6 +212,7 @@ def u_animate(ctx):
         eng.oblige(f"C10:data-left-to-draw()-un-finalized@{kind}", s, And(s.H(render_data)["finalized"] is False), prop="C10", kind="exit")
         if kind == "raise":
             eng.oblige(f"C07:animation-ends-silently-on-Ctrl-C({val.cls})", s, val.cls != "KeyboardInterrupt", prop="C07", kind="raise")
+        Term.oblige_handled(eng, s, kind)
         if kind in ("normal", "return") and g["interrupted"] is False and not s.ghost.get("faulted"):
             ffw = s.lookup("first_frame_written")
             eng.oblige("C06:cursor-on-last-line-of-padded-box-after-animation", s,
@@ -287,11 +320,7 @@ def draw_unit(animated_case):
             return [(TS([PBlock(blk.id, w, h, l, t, r, b)]), s)]
         eng.methods[("Padding", "pad")] = pad
 
-        def handle_int(e, s, recv, a, k):
-            s = e.fork(s)
-            s.ghost["handled_interrupt_at_write"] = s.ghost["writes_n"]
-            return [(None, s)]
-        eng.methods[("Renderable", "_handle_interrupted_draw_")] = handle_int
+        eng.methods[("Renderable", "_handle_interrupted_draw_")] = Term.handler
 
         def finalize(e, s, recv, a, k):
             s = e.fork(s)
@@ -310,6 +339,7 @@ def draw_unit(animated_case):
                 eng.oblige("C06:rejected-before-anything-is-written", s, And(s.ghost["writes_n"] == 0, tty.tty_equal(s.ghost["tty"], snap0)), prop="C06", kind="raise")
                 continue
             # ---- C07 / C13: every exit
+            Term.oblige_handled(eng, s, kind)
             eng.oblige(f"C07:cursor-visible@{kind}", s, g["vis"], prop="C07", kind="exit")
             eng.oblige(f"C13:terminal-attributes-restored@{kind}", s, tty.tty_equal(s.ghost["tty"], snap0), prop="C13", kind="exit")
             eng.oblige(f"C07:terminal-attributes-restored@{kind}", s, tty.tty_equal(s.ghost["tty"], snap0), prop="C07", kind="exit")
